@@ -54,6 +54,20 @@ impl Write for ShortWr {
         Ok(c)
     }
     fn flush(&mut self) -> io::Result<()> { Ok(()) }
+    // a sink with native scatter/gather support: the per-call limit applies to the buffers taken together (first buffer whole and
+    // part of the second, …), which is what line-buffered stdout, sockets and files do
+    fn write_vectored(&mut self, bufs: &[io::IoSlice<'_>]) -> io::Result<usize> {
+        let total: usize = bufs.iter().map(|b| b.len()).sum();
+        if self.fail_at == Some(self.out.len()) {
+            return if total == 0 { Ok(0) } else { Err(io::Error::new(injected_kind(self.out.len()), "injected write failure")) };
+        }
+        let mut c = self.sched.get(self.k).copied().unwrap_or(total).max(1).min(total);
+        self.k += 1;
+        if let Some(f) = self.fail_at { c = c.min(f - self.out.len()); }
+        let mut left = c;
+        for b in bufs { let n = left.min(b.len()); self.out.extend_from_slice(&b[..n]); left -= n; if left == 0 { break; } }
+        Ok(c)
+    }
 }
 
 pub fn err_kind(e: &io::Error) -> String {
@@ -174,6 +188,17 @@ pub fn eval(ctx: &Ctx, op: &str, a: &[&str]) -> Option<String> {
             let o = cli::run_sfs(&ctx.sfs_bin, &args, &parse_hex(a[2]));
             Some(cli_render(&o))
         }
+        // the same with the input given as a PATH to a regular file (no stdin):  io.cmdp cmd args hexbytes
+        "io.cmdp" => {
+            let path = tmp_path(ctx, a, "inp");
+            std::fs::write(&path, parse_hex(a[2])).ok()?;
+            let mut args = vec![a[0].to_string()];
+            args.extend(fmt_args(a[1]));
+            args.push(path.clone());
+            let o = cli::run_sfs(&ctx.sfs_bin, &args, &[]);
+            let _ = std::fs::remove_file(&path);
+            Some(cli_render(&o))
+        }
         // writing to a device that fails every write:  io.devfull cmd args shape bits   (`-o /dev/full`)
         "io.devfull" => {
             let input = crate::npy::write_f8(&parse_nats(a[2]), &parse_bits(a[3]));
@@ -229,6 +254,16 @@ pub fn eval(ctx: &Ctx, op: &str, a: &[&str]) -> Option<String> {
             let mid = if a[1] == "file" { std::fs::read(&path).unwrap_or_default() } else { o1.stdout.clone() };
             let mut args2 = vec![a[2].to_string()]; args2.extend(fmt_args(a[3]));
             let o2 = if a[1] == "file" { args2.push(path.clone()); cli::run_sfs(&ctx.sfs_bin, &args2, &[]) }
+                     else if a[1] == "fifo" {
+                         // the spectrum reaches the second command through a named pipe given as its input PATH (`sfs view <(…)`)
+                         let fifo = format!("{path}.fifo"); let _ = std::fs::remove_file(&fifo);
+                         if !std::process::Command::new("mkfifo").arg(&fifo).status().map(|s| s.success()).unwrap_or(false) { return Some("NO-FIFO".into()); }
+                         let (f2, data) = (fifo.clone(), mid.clone());
+                         std::thread::spawn(move || { use std::io::Write; if let Ok(mut f) = std::fs::OpenOptions::new().write(true).open(&f2) { let _ = f.write_all(&data); } });
+                         args2.push(fifo.clone());
+                         let o = cli::run_sfs(&ctx.sfs_bin, &args2, &[]);
+                         let _ = std::fs::remove_file(&fifo); o
+                     }
                      else if let Some(k) = a[1].strip_prefix("split") { cli::run_sfs_split(&ctx.sfs_bin, &args2, &mid, k.parse().unwrap_or(1)) }
                      else { cli::run_sfs(&ctx.sfs_bin, &args2, &mid) };
             let _ = std::fs::remove_file(&path);
@@ -403,6 +438,12 @@ pub fn gen_c07(ctx: &Ctx, rng: &mut Rng, out: &mut Vec<String>) {
         let (cmd2, args2) = match (i / 4) % 3 { 0 => ("view", "-O npy"), 1 => ("fold", "--precision 17"), _ => ("stat", "-s sum --precision 17") };
         out.push(format!("io.pipe\t-O {fmt} --precision {p}\t{transport}\t{cmd2}\t{args2}\t{}\t{}", nats(&shape), bits(&data)));
     }
+    // the reader gets the file through a named pipe given as its input PATH (process substitution): not a regular file, no size
+    for (i, (fmt, cmd2, args2)) in [("npy", "view", "-O npy"), ("text", "view", "-O npy"), ("npy", "fold", "--precision 17"), ("text", "stat", "-s sum --precision 17"), ("npy", "stat", "-s sum --precision 17"), ("text", "fold", "--precision 17")].into_iter().enumerate() {
+        if !t && i >= 4 { continue; }
+        let (shape, data) = spec(rng, 3, 4, 30);
+        out.push(format!("io.pipe\t-O {fmt} --precision 6\tfifo\t{cmd2}\t{args2}\t{}\t{}", nats(&shape), bits(&data)));
+    }
     // the reader's stdin delivers the file in two pieces with a pause: a first read that ends inside the header, at the header's end,
     // inside a value (odd offsets), at a value boundary; npy and text
     for (i, k) in [1usize, 6, 10, 127, 128, 129, 131, 136, 141, 151, 199].into_iter().enumerate() {
@@ -420,6 +461,15 @@ pub fn gen_c07(ctx: &Ctx, rng: &mut Rng, out: &mut Vec<String>) {
         let data: Vec<f64> = (0..n).map(|j| if j == last_nl || (i == 2 && j % 5 == 0) { 3.25 } else { (j % 7) as f64 }).collect();
         for (fmt, transport, cmd2, args2) in [("npy", "pipe", "view", "-O npy"), ("npy", "file", "view", "-O npy"), ("text", "pipe", "view", "-O npy"), ("npy", "pipe", "stat", "-s sum --precision 17")] {
             out.push(format!("io.pipe\t-O {fmt} --precision 6\t{transport}\t{cmd2}\t{args2}\t{side},{side}\t{}", bits(&data)));
+        }
+    }
+    // spectra of more than 128 integer counts whose bytes contain no 0x0a at all, written as npy to a pipe and to a file: the bytes
+    // must be the same through every sink (a line-buffered stdout that finds no newline passes writes through in pieces)
+    for (i, (r, c)) in [(13usize, 21usize), (9, 15), (30, 30), (129, 1), (1, 200)].into_iter().enumerate() {
+        if !t && i >= 3 { continue; }
+        let data: Vec<f64> = (0..r * c).map(|j| (j % 7) as f64).collect();
+        for (transport, cmd2, args2) in [("pipe", "view", "-O npy"), ("file", "view", "-O npy"), ("pipe", "stat", "-s sum --precision 17")] {
+            out.push(format!("io.pipe\t-O npy --precision 6\t{transport}\t{cmd2}\t{args2}\t{r},{c}\t{}", bits(&data)));
         }
     }
     // an output path that already holds a longer file: the second, shorter result must replace it completely
@@ -626,7 +676,7 @@ pub fn gen_c16(ctx: &Ctx, rng: &mut Rng, out: &mut Vec<String>) {
             if boundary && (t || fi < 6) {
                 out.push(format!("io.specread\t{}", hex(&f[..n])));
                 let (c, a) = cmds[(n + fi) % 3];
-                out.push(format!("io.cmd\t{c}\t{a}\t{}", hex(&f[..n])));
+                out.push(format!("io.cmd\t{c}\t{a}\t{}", hex(&f[..n]))); out.push(format!("io.cmdp\t{c}\t{a}\t{}", hex(&f[..n]))); out.push(format!("io.cmdp\tview\t-O npy\t{}", hex(&f[..n])));
             }
         }
         for e in 1..=16usize {
@@ -637,7 +687,7 @@ pub fn gen_c16(ctx: &Ctx, rng: &mut Rng, out: &mut Vec<String>) {
                 if (e == 1 || e == 8 || e == 16) && (t || fi < 6) {
                     out.push(format!("io.specread\t{}", hex(&g)));
                     let (c, a) = cmds[(e + fi) % 3];
-                    out.push(format!("io.cmd\t{c}\t{a}\t{}", hex(&g)));
+                    out.push(format!("io.cmd\t{c}\t{a}\t{}", hex(&g))); out.push(format!("io.cmdp\t{c}\t{a}\t{}", hex(&g))); out.push(format!("io.cmdp\tview\t-O npy\t{}", hex(&g)));
                 }
             }
         }
@@ -656,7 +706,7 @@ pub fn gen_c16(ctx: &Ctx, rng: &mut Rng, out: &mut Vec<String>) {
             if !t && ![1, 8, 9, 4096].contains(&e) { continue; }
             let mut g = f.clone(); g.extend((0..e).map(|j| if k % 2 == 0 { 0u8 } else { (j * 37 + 11) as u8 }));
             out.push(format!("io.npyread\t{}", hex(&g)));
-            if e == 1 || e == 8 { out.push(format!("io.specread\t{}", hex(&g))); let (c, a) = cmds[(k + li) % 3]; out.push(format!("io.cmd\t{c}\t{a}\t{}", hex(&g))); }
+            if e == 1 || e == 8 { out.push(format!("io.specread\t{}", hex(&g))); let (c, a) = cmds[(k + li) % 3]; out.push(format!("io.cmd\t{c}\t{a}\t{}", hex(&g))); out.push(format!("io.cmdp\t{c}\t{a}\t{}", hex(&g))); out.push(format!("io.cmdp\tview\t-O npy\t{}", hex(&g))); }
         }
         let mut twice = f.clone(); twice.extend_from_slice(&f);
         out.push(format!("io.npyread\t{}", hex(&twice)));
@@ -690,6 +740,22 @@ pub fn gen_c16(ctx: &Ctx, rng: &mut Rng, out: &mut Vec<String>) {
         variants.push(render(&shape, &toks).replace(' ', "\n"));
         variants.push(render(&shape, &toks).replace(' ', "\t  "));
         if n > 0 { let mut tk = toks.clone(); tk[n / 2] = "x1".into(); variants.push(render(&shape, &tk)); }
+        // spellings other tools / platforms produce: CRLF line ends, no final newline, blank lines, leading / trailing blanks, a
+        // header with blanks, upper / lower case, a second header line, a byte-order mark, values in exponent / signed / bare-dot form
+        let base = render(&shape, &toks);
+        variants.push(base.replace('\n', "\r\n"));
+        variants.push(base.trim_end().to_string());
+        variants.push(base.replace('\n', "\n\n"));
+        variants.push(format!(" {base}")); variants.push(format!("\n{base}")); variants.push(format!("{base} \n \n"));
+        variants.push(base.replace("#SHAPE=<", "#SHAPE = <")); variants.push(base.replace("#SHAPE=<", "#shape=<")); variants.push(base.replace("#SHAPE=", "#SHAPE:"));
+        variants.push(format!("{}{base}", base.lines().next().unwrap_or("").to_string() + "\n"));
+        variants.push(format!("\u{feff}{base}"));
+        variants.push(base.replace('>', ">  # comment"));
+        if n > 0 {
+            for alt in ["1e0", "+1", "1.", ".5", "1E2", "1e-400", "1e400", "-0", "0x10", "1_000", "١", "1,5", "inf", "-inf", "NaN", "nan", "Infinity", "1e", "--1", "1e+2"] {
+                let mut tk = toks.clone(); tk[(n - 1) / 2] = alt.into(); variants.push(render(&shape, &tk));
+            }
+        }
         for (vi, v) in variants.iter().enumerate() {
             out.push(format!("io.textread\t{}", hex(v.as_bytes())));
             if vi % 4 == 0 && (t || fi < 8) {
